@@ -9,12 +9,11 @@ package tablelib
 // #list is 0); elements are only ever read or written at positions between pos
 // and #list+1, all of them >= 1 unless the list is empty.
 //@ func remove
-//@   prop C19
+//@   prop C19 C04
 //@   arith int
-//@   norte
-//@   requires t != nil && c != nil && 0 <= c.nArgs && c.nArgs <= len(c.args) && len(c.args) == 2
+//@   requires t != nil && c != nil && 0 <= c.nArgs && c.nArgs <= len(c.args) && len(c.args) == 2 && t.Runtime != nil && c.GoFunction != nil && c.next != nil && len(c.args) == 2
 //@   modifies everything()
-//@   exits any
+//@   exits ContextTerminationError
 //@   loop 1: invariant true
 // (A position equal to #list or #list+1 is accepted whatever its sign, as in the
 // reference implementation - #list may come from a __len metamethod - and then only
